@@ -34,7 +34,7 @@ pub fn h_c33_cf_row_move() {
     let x = any_i32_in(1, LAST_ROW);
     let m = any_i32_in(1, LAST_ROW);
     let d = any_i32_in(-LAST_ROW, LAST_ROW);
-    assume(d != 0 && 1 <= m + d && m + d <= LAST_ROW);
+    assume((d != 0) & (1 <= m + d) & (m + d <= LAST_ROW));
     let got = displace_cf_row(x, &DisplaceData::RowMove { sheet: s2, row: m, delta: d }, sheet);
     let want = if s2 == sheet { Some(sigma_move(x, m, d)) } else { Some(x) };
     check("C33.cf_row.move", got == want);
@@ -68,7 +68,7 @@ pub fn h_c33_cf_col_move() {
     let x = any_i32_in(1, LAST_COLUMN);
     let m = any_i32_in(1, LAST_COLUMN);
     let d = any_i32_in(-LAST_COLUMN, LAST_COLUMN);
-    assume(d != 0 && 1 <= m + d && m + d <= LAST_COLUMN);
+    assume((d != 0) & (1 <= m + d) & (m + d <= LAST_COLUMN));
     let got = displace_cf_col(x, &DisplaceData::ColumnMove { sheet: s2, column: m, delta: d }, sheet);
     let want = if s2 == sheet { Some(sigma_move(x, m, d)) } else { Some(x) };
     check("C33.cf_col.move", got == want);
@@ -157,7 +157,7 @@ fn block_rows(maxn: i32) {
     let b = any_i32_in(1, LAST_ROW);
     let n = any_i32_in(1, maxn);
     let d = any_i32_in(-LAST_ROW, LAST_ROW);
-    assume(d != 0 && b + n - 1 <= LAST_ROW && 1 <= b + d && b + n - 1 + d <= LAST_ROW);
+    assume((d != 0) & (b + n - 1 <= LAST_ROW) & (1 <= b + d) & (b + n - 1 + d <= LAST_ROW));
     check("C15.block_rows.permutation", chain_rows(x, b, n, d, sheet) == Some(block_move(x, b, n, d)));
     reach("C15.block_rows");
 }
@@ -168,7 +168,7 @@ fn block_cols(maxn: i32) {
     let b = any_i32_in(1, LAST_COLUMN);
     let n = any_i32_in(1, maxn);
     let d = any_i32_in(-LAST_COLUMN, LAST_COLUMN);
-    assume(d != 0 && b + n - 1 <= LAST_COLUMN && 1 <= b + d && b + n - 1 + d <= LAST_COLUMN);
+    assume((d != 0) & (b + n - 1 <= LAST_COLUMN) & (1 <= b + d) & (b + n - 1 + d <= LAST_COLUMN));
     check("C15.block_cols.permutation", chain_cols(x, b, n, d, sheet) == Some(block_move(x, b, n, d)));
     reach("C15.block_cols");
 }
